@@ -79,6 +79,10 @@ def check_window(conf, G, a, b, nodes, times, P, inner, deep):
             s1, s2 = _both_snap(conf, H, H2)
             if s1 != s2:
                 bad('functional-form-differs', {'in': observe.snapshot_diff(s1, s2)})
+            H3 = G.time_slice(t_from=a) if b is None else G.time_slice(t_to=b, t_from=a)
+            s1, s3 = _both_snap(conf, H, H3)
+            if s1 != s3:
+                bad('keyword-form-differs', {'in': observe.snapshot_diff(s1, s3)})
         except Exception as ex:
             bad('functional-form-raises', {'exc': type(ex).__name__})
     # slicing a slice == slicing by the intersection
